@@ -21,7 +21,12 @@ pub const CHILD_TIMEOUT_MS: i32 = 30_000;
 /// reference context, so a sequential plan that needs more than that per call plus 30 s of
 /// slack has a call that does not return where its reference does.
 pub fn plan_timeout_ms(plan: &Plan) -> i32 {
-    let calls = plan.threads.iter().map(|t| t.len()).sum::<usize>() + plan.sentinel.len();
+    let warm = plan.threads.iter().flatten().filter(|c| c.warm).count();
+    let calls = plan.threads.iter().map(|t| t.len()).sum::<usize>() + plan.sentinel.len() - warm;
+    if warm > 0 && !plan.shuttle {
+        // a long history of small filler calls: they take milliseconds each
+        return CHILD_TIMEOUT_MS / 2 + (REF_TIMEOUT_MS + 1_000) * calls as i32 + 150 * warm as i32;
+    }
     if plan.shuttle {
         // an interleaved run that blocks the simulator for real (a blocking primitive without
         // a hook) should be noticed quickly; it is then re-run sequentially, not reported
@@ -81,6 +86,8 @@ pub fn ref_plan(op: &Op, env: &Option<String>) -> Plan {
             hash_base: Some(0),
             panic_at: None,
             session: false,
+            warm: false,
+            log_level: None,
         }]],
         sched: Sched::default(),
         log_yield_ppm: 0,
@@ -92,6 +99,9 @@ pub fn ref_plan(op: &Op, env: &Option<String>) -> Plan {
         block_yield_mean: 0,
             atomic_yield_mean: 0,
             atomic_hold_mean: 0,
+            atomic_focus: 0,
+            spin_guard: 0,
+            log_level: None,
     }
 }
 
@@ -275,6 +285,10 @@ fn judge(
         return;
     }
     if let Op::SetCwd { .. } = &call.op {
+        return;
+    }
+    if call.warm {
+        // history filler of a long history: executed, not compared
         return;
     }
     if out.obs.class == "noreturn" && res.violations.iter().any(|v| v.phase == "execution") {
